@@ -21,8 +21,10 @@ ASSUMPTIONS = [
     "DOO's default diameter function depends on cell size: translation only (documented exception)",
     "a genuine coordinate dependence moves points by whole cell widths, 6+ orders of magnitude above the tolerance",
 ]
-FLOOR = {"points_compared": {"quick": 80000, "thorough": 1500000}, "points_compared_bit_exactly": {"quick": 30000, "thorough": 500000}, "exact_twins": {"quick": 200, "thorough": 4000},
-         "tolerance_twins": {"quick": 200, "thorough": 4000}}
+FLOOR = {"points_compared": {"quick": 50000, "thorough": 400000},
+         "points_compared_bit_exactly": {"quick": 20000, "thorough": 160000},
+         "exact_twins": {"quick": 200, "thorough": 1600},
+         "tolerance_twins": {"quick": 200, "thorough": 1600}}
 WALL = {"quick": 1200, "thorough": 4 * 3600}
 ALG = [a for a in C.ALGOS]
 
@@ -63,6 +65,11 @@ def gen_cases(rng, tier, count=None):
                 # far from the origin / tiny or huge scale (still exact: power-of-two scale, dyadic translation)
                 s = float(2.0 ** rng.integers(-24, 25))
                 b = [float(rng.integers(-64, 64)) * float(2.0 ** rng.integers(-3, 28)) for _ in range(dim)]
+            if rng.random() < 0.25:
+                # pure scaling by an extreme power of two (exact as long as nothing under/overflows): boxes 2^-80 ..
+                # 2^60 wide, anisotropic (the sides of the base box differ by up to 2^6)
+                s = float(2.0 ** rng.integers(-80, 61))
+                b = [0.0] * dim
             if algo == "DOO":
                 s = 1.0
         else:
